@@ -49,6 +49,14 @@ type c11Rule struct {
 	M      []c11Member `json:"m,omitempty"`      // threshold: members with weights (tenths)
 	Accept int         `json:"accept,omitempty"` // threshold: accept value (tenths)
 	Sets   [][]string  `json:"sets,omitempty"`   // aksets: listed key sets
+	Den    int         `json:"den,omitempty"`    // threshold: denominator of weights and accept value (0 = tenths)
+}
+
+func (r c11Rule) den() float64 {
+	if r.Den > 0 {
+		return float64(r.Den)
+	}
+	return 10
 }
 
 // c11Case is one evaluator case: the rule of Root ("acc" or "method") evaluated for the signer
@@ -155,10 +163,10 @@ func (r c11Rule) nonNegative() bool {
 func c11ACL(r c11Rule) *protos.Acl {
 	switch r.Kind {
 	case "threshold":
-		a := &protos.Acl{Pm: &protos.PermissionModel{Rule: protos.PermissionRule_SIGN_THRESHOLD, AcceptValue: float64(r.Accept) / 10},
+		a := &protos.Acl{Pm: &protos.PermissionModel{Rule: protos.PermissionRule_SIGN_THRESHOLD, AcceptValue: float64(r.Accept) / r.den()},
 			AksWeight: map[string]float64{}}
 		for _, m := range r.M {
-			a.AksWeight[c11Real(m.Name)] = float64(m.W) / 10
+			a.AksWeight[c11Real(m.Name)] = float64(m.W) / r.den()
 		}
 		return a
 	case "aksets":
@@ -491,14 +499,14 @@ func c11FloatSafe(r c11Rule) bool {
 	n := len(r.M)
 	var rec func(used int, fsum float64, isum int, cnt int) bool
 	rec = func(used int, fsum float64, isum int, cnt int) bool {
-		if (fsum >= float64(r.Accept)/10) != (isum >= r.Accept) {
+		if (fsum >= float64(r.Accept)/r.den()) != (isum >= r.Accept) {
 			return false
 		}
 		for i := 0; i < n; i++ {
 			if used&(1<<uint(i)) != 0 {
 				continue
 			}
-			if !rec(used|1<<uint(i), fsum+float64(r.M[i].W)/10, isum+r.M[i].W, cnt+1) {
+			if !rec(used|1<<uint(i), fsum+float64(r.M[i].W)/r.den(), isum+r.M[i].W, cnt+1) {
 				return false
 			}
 		}
@@ -718,6 +726,22 @@ func c11Envs(thorough bool) (envs []c11Env, box string) {
 			})
 		})
 	}
+	// fine-grained weights (thousandths): member sets that miss the accept value by a few thousandths must be refused
+	// (both tiers; rules whose float sums are not exact in every order are left out by c11FloatSafe as everywhere)
+	c11Subsets([]string{"A", "B", "C"}, 3, func(sub []string) {
+		if len(sub) < 2 {
+			return
+		}
+		c11Tenths([]int{4, 333, 334, 996}, len(sub), func(w []int) {
+			for _, acc := range []int{667, 670, 1000} {
+				r := c11Rule{Kind: "threshold", Accept: acc, Den: 1000}
+				for i, nme := range sub {
+					r.M = append(r.M, c11Member{nme, w[i]})
+				}
+				withX2("acc", "account-threshold-thousandths", r, nil)
+			}
+		})
+	})
 	for _, r := range c11KeySetRules([]string{"A", "B", "C"}) {
 		withX2("acc", "account-keysets", r, nil)
 	}
@@ -757,7 +781,7 @@ func c11Envs(thorough bool) (envs []c11Env, box string) {
 	for _, r := range c11KeySetRules([]string{"A", "B"}) {
 		withX2("method", "method-keysets", r, map[string]c11Rule{"acc": accV[1]})
 	}
-	box = fmt.Sprintf("account rules: no rule; threshold over <= 3 members of {A,B,C,X2} with weights %v/10 (3 members: %v/10) and accept value in %v/10 (quick: plus 2-3 keys of {A,B,C} with weights {-10,-4,6,10}/10, at least one negative, accept 5 or 10); <= 2 non-empty key sets over {A,B,C}; nested account X2 with %d own rules (none, threshold, key sets); "+
+	box = fmt.Sprintf("account rules: no rule; threshold over <= 3 members of {A,B,C,X2} with weights %v/10 (3 members: %v/10) and accept value in %v/10 (quick: plus 2-3 keys of {A,B,C} with weights {-10,-4,6,10}/10, at least one negative, accept 5 or 10), plus 2-3 keys of {A,B,C} with weights {4,333,334,996}/1000 and accept value in {667,670,1000}/1000; <= 2 non-empty key sets over {A,B,C}; nested account X2 with %d own rules (none, threshold, key sets); "+
 		"method rules: no rule; threshold over members of {A,B,acc} with weights %v/10, acc with 5 own rules (one containing X2); <= 2 key sets over {A,B}", weights, weights3, accepts, len(x2v), mweights)
 	return envs, box
 }
